@@ -253,7 +253,17 @@ def gen_case(rng, idx, big):
     B = None if coincident else mk(rng.randint(1, hi), tb, 5000)
     if B is not None and not ({p["t"] for p in A} & {p["t"] for p in B}):
         B[0]["t"] = A[0]["t"]
-    if B is not None and rng.random() < 0.4:
+    samepos = B is not None and rng.random() < 0.35
+    if samepos:
+        # exactly coincident positions in two different lists (e.g. two classes picked at one centre, re-refined angles):
+        # same complete position bit for bit, own orientation - the neighbour distance is exactly 0, the angle is not
+        for p in rng.sample(B, max(1, len(B) // 3)):
+            q = rng.choice(A)
+            if any(o is not p and o["t"] == q["t"] and o["pos"] == q["pos"] and o["shift"] == q["shift"] for o in B):
+                continue                      # a second copy at the same place would be a distance tie
+            p["t"], p["pos"], p["shift"] = q["t"], list(q["pos"]), list(q["shift"])
+    if B is not None and not samepos and rng.random() < 0.5:
+        # (not together with coincident positions: zero-offset rows of equal numbers could not be told apart)
         # numbering restarts at 1 in every tomogram: numbers repeat across tomograms and are shared by the two lists
         # (not for coincident lists: their zero-offset self rows could not be told apart between tomograms)
         for lst in [A, B]:
@@ -500,6 +510,8 @@ def run(ctx):
     states += emitted_states(res, "select")
     res = ctx.tlc("MC_NearestNbr", cfg("RestartConfigs", "Gens", "NoShift", 0, "st"), name="restart", workers=1)
     states += emitted_states(res, "restart")
+    res = ctx.tlc("MC_NearestNbr", cfg("SamePosConfigs", "Gens", "NoShift", 0, "st"), name="samepos", workers=1)
+    states += emitted_states(res, "samepos")
     res = ctx.tlc("MC_NearestNbr", cfg(ctx.pick("MotionConfigsQuick", "MotionConfigsThorough"), "All", "MCShifts", 1, "st"), name="motion", workers=1)
     states += emitted_states(res, "motion")
     ctx.exhaustive["L1_scopes"] = True
@@ -507,7 +519,7 @@ def run(ctx):
     by_scope = {}
     for s in states:
         by_scope.setdefault(s["scope"], []).append(s)
-    budget = {"restart": ctx.pick(150, 3000), "orient": ctx.pick(120, 576), "self": ctx.pick(50, 2000), "select": ctx.pick(300, 9000),
+    budget = {"samepos": ctx.pick(150, 1300), "restart": ctx.pick(150, 3000), "orient": ctx.pick(120, 576), "self": ctx.pick(50, 2000), "select": ctx.pick(300, 9000),
               "motion": ctx.pick(180, 5000)}
     chosen = []
     for scope, lst in sorted(by_scope.items()):
